@@ -414,8 +414,14 @@ def chaos(t, attach=None, force=None, allow_extra=True, pre=None) -> Ctx:
             w.push(w.clock.t + at, ("fn", _mk_extra(kind, who, dur, extras)))
     w.max_events = 2500
     w.max_t = 90_000
-    if t.choose(3, "pacing") == 2:
+    pv = t.choose(6, "pacing")
+    if pv == 2:
         w.pacing = "random"
+    elif pv == 3:
+        ticked_pacing(w, t, intervals=[x for x in (cfg.ack_s, cfg.nak_s, cfg.check_s_recv, cfg.check_s_send) if x < 50])
+    elif pv == 4:
+        w.pacing = "lazy"
+        w.lazy_ms = [700, 1500, 4000][t.choose(3, "lazy poll period")]
     _start(ctx, attach)
     ctx.reason = w.run()
     ctx.info["fired"] = sum(w.link.fired.values()) + sum(extras.values())
